@@ -223,10 +223,12 @@ pub fn run_check(check: &dyn Check, tier: Tier) -> i32 {
         a.context_switches += rep.context_switches;
         a.multi_enabled_points += rep.multi_enabled_points;
         for (k, v) in &rep.faults {
-            *a.faults.entry(k.clone()).or_insert(0) += v;
+            let e = a.faults.entry(k.clone()).or_insert(0);
+            *e = e.saturating_add(*v);
         }
         for (k, v) in &rep.probes {
-            *a.probes.entry(k.clone()).or_insert(0) += v;
+            let e = a.probes.entry(k.clone()).or_insert(0);
+            *e = e.saturating_add(*v);
         }
         if a.samples.len() < 4 && rep.nontrivial && (idx >= n_corpus || a.samples.is_empty()) {
             a.samples.push(sc.short());
